@@ -270,4 +270,58 @@ example (f1 : Nat) (as1 : List Term) (e1 : VM.End)
     ⟨fragO1.clauses, by decide +kernel, by decide +kernel, (fun _ h => by cases h), by decide +kernel⟩
     (by decide) f1 40 as1 _ e1 _ h1 sldO2 hcalls
 
+/-! ## stage 3b: `\\+`/1
+
+      q(a).  q(b).  s(a).  s(c).
+      notin(X) :- \\+ q(X).
+      dd(X) :- s(X), \\+ q(X).
+      ?- notin(c).     one answer          ?- notin(a).   no answer
+      ?- dd(X).        one answer c
+
+  (`#eval Driver.C01.vmLine` = `specLine … false` on all three.) -/
+
+def s' (a : Term) : Term := .app "s" (.cons a .nil)
+def notin (a : Term) : Term := .app "notin" (.cons a .nil)
+def dd (a : Term) : Term := .app "dd" (.cons a .nil)
+def neg (a : Term) : Term := .app "\\+" (.cons a .nil)
+
+def progN : List Term :=
+  [q (.atom "a"), q (.atom "b"), s' (.atom "a"), s' (.atom "c"),
+   SLD.rule (notin (v 0)) (neg (q (v 0))),
+   SLD.rule (dd (v 0)) (conj (s' (v 0)) (neg (q (v 0))))]
+
+theorem fragN1 : CtlFrag progN (notin (.atom "c")) :=
+  ⟨by decide +kernel, by decide +kernel, by decide +kernel, (fun _ h => by cases h), by decide +kernel⟩
+
+theorem sldN1 : SLD.solveQuery 40 progN (notin (.atom "c")) 5 = some ([notin (.atom "c")], .exhausted) := by
+  decide +kernel
+
+theorem sldN2 : SLD.solveQuery 40 progN (notin (.atom "a")) 5 = some ([], .exhausted) := by
+  decide +kernel
+
+theorem sldN3 : SLD.solveQuery 60 progN (dd (v 0)) 5 = some ([dd (.atom "c")], .exhausted) := by
+  decide +kernel
+
+example (f1 : Nat) (as1 : List Term) (e1 : VM.End)
+    (h1 : VM.runQuery f1 progN (Driver.C01.shiftVars 10 (notin (.atom "c"))) 5 = some (as1, e1))
+    (hcalls : CallsOK true f1 progN (notin (.atom "c")) 5) :
+    Forall2 (AnsRel (Driver.C01.shiftVars 10 (notin (.atom "c")))) as1 [notin (.atom "c")] ∧ endAgree e1 .exhausted :=
+  vm_refines_sld_ctl progN _ 5 fragN1 (by decide) f1 40 as1 _ e1 _ h1 sldN1 hcalls
+
+example (f1 : Nat) (as1 : List Term) (e1 : VM.End)
+    (h1 : VM.runQuery f1 progN (Driver.C01.shiftVars 10 (notin (.atom "a"))) 5 = some (as1, e1))
+    (hcalls : CallsOK true f1 progN (notin (.atom "a")) 5) :
+    Forall2 (AnsRel (Driver.C01.shiftVars 10 (notin (.atom "a")))) as1 [] ∧ endAgree e1 .exhausted :=
+  vm_refines_sld_ctl progN _ 5
+    ⟨fragN1.clauses, by decide +kernel, by decide +kernel, (fun _ h => by cases h), by decide +kernel⟩
+    (by decide) f1 40 as1 _ e1 _ h1 sldN2 hcalls
+
+example (f1 : Nat) (as1 : List Term) (e1 : VM.End)
+    (h1 : VM.runQuery f1 progN (Driver.C01.shiftVars 10 (dd (v 0))) 5 = some (as1, e1))
+    (hcalls : CallsOK true f1 progN (dd (v 0)) 5) :
+    Forall2 (AnsRel (Driver.C01.shiftVars 10 (dd (v 0)))) as1 [dd (.atom "c")] ∧ endAgree e1 .exhausted :=
+  vm_refines_sld_ctl progN _ 5
+    ⟨fragN1.clauses, by decide +kernel, by decide +kernel, (fun _ h => by cases h), by decide +kernel⟩
+    (by decide) f1 60 as1 _ e1 _ h1 sldN3 hcalls
+
 end PrologVerif.Refine.Example
